@@ -111,6 +111,29 @@ fn fast(s: u64, a: Act) -> Option<u64> {
     Some(raw(&e))
 }
 
+/// every combination of the twelve low flag bits and of the twelve high flag bits (2 x 4096 flag words, plus both at once),
+/// stored over several prior contents through set_flags / set_addr / set_frame: no flag combination is special
+fn flag_combinations(r: &mut Rep, a: &Args) {
+    let priors = [0u64, ADDR_MASK | FLAG_MASK, 0x0000_0012_3456_7000 | 0x8000_0000_0000_0067, 0x0007_0000_6000 | 0x63, 1, 0x8000_0000_0000_0000];
+    let targets = [0u64, 0x0000_0007_0000_6000, 0x0000_0002_0000_4000, ADDR_MASK];
+    let mut n = 0usize;
+    for c in 0..4096u64 {
+        for f in [c, c << 52, c | c << 52, c | (!c & 0xfff) << 52] {
+            n += 1;
+            if n % a.nshards != a.shard {
+                continue;
+            }
+            for &s in &priors {
+                r.transitions += 1;
+                let _ = step(r, s, Act::SetFlags(f));
+                let t = targets[(c as usize + (s as usize & 3)) % targets.len()];
+                let _ = step(r, s, Act::SetAddr(t, f));
+                let _ = step(r, s, Act::SetFrame(t, f));
+            }
+        }
+    }
+}
+
 fn search(r: &mut Rep, a: &Args) {
     let ad = addrs();
     let fl = flagsets();
@@ -296,6 +319,7 @@ pub fn run(a: &Args) {
     }
     let mut r = Rep::new("C08", "entry-search");
     search(&mut r, a);
+    guarded(&mut r, "C08|entry|unexpected-panic", || "entry flag-combinations".into(), |r| flag_combinations(r, a));
     r.sample("entry 0x0 SetAddr(4096, 1)  -> raw 0x1001".into());
     r.sample("entry 0x8000000000000fff... SetFlags(1<<63) leaves the address".into());
     r.note("explicit-state search to fixpoint: state = raw u64 of a real PageTableEntry; alphabet 45 aligned addresses (every single address bit) x ~58 flag sets (every single flag bit 0-11,52-63)");
